@@ -317,6 +317,9 @@ class UCall(object):
         self.name, self.may_raise, self.result = name, may_raise, result
         self.calls = []
 
+    def as_v_term(self):
+        return z3.Const('fn!' + self.name, V)
+
 
 # ---------------------------------------------------------------------------------------------- modules
 
